@@ -133,9 +133,22 @@ thread_local! {
     pub static LAST_PANIC_LOC: std::cell::RefCell<Option<String>> = const { std::cell::RefCell::new(None) };
 }
 
+/// message + location of the most recent panic of any thread (read after a run thread died)
+pub static LAST_PANIC_GLOBAL: std::sync::Mutex<Option<String>> = std::sync::Mutex::new(None);
+
 pub fn install_panic_hook() {
     std::panic::set_hook(Box::new(|info| {
         let loc = info.location().map(|l| format!("{}:{}", l.file(), l.line())).unwrap_or_default();
+        let msg = if let Some(s) = info.payload().downcast_ref::<&str>() {
+            s.to_string()
+        } else if let Some(s) = info.payload().downcast_ref::<String>() {
+            s.clone()
+        } else {
+            String::new()
+        };
+        if let Ok(mut g) = LAST_PANIC_GLOBAL.lock() {
+            *g = Some(format!("{} @ {}", msg, loc));
+        }
         LAST_PANIC_LOC.with(|l| *l.borrow_mut() = Some(loc));
     }));
 }
